@@ -982,6 +982,36 @@ def newkeys_keeps_auth_handler():
     return ok
 
 
+def send_timeout_reads_clock():
+    """AST of Transport._send_user_message: the test that raises "Key-exchange timed out" compares a `time.time()`
+    reading with `start + self.clear_to_send_timeout`, where `start` was assigned from `time.time()` before the loop
+    (the bound is elapsed time, not a number of loop passes).  None if unreadable."""
+    import paramiko.transport as T
+
+    try:
+        tree = ast.parse(textwrap.dedent(inspect.getsource(T.Transport._send_user_message)))
+    except (OSError, SyntaxError):
+        return None
+
+    def is_time_call(n):
+        return (isinstance(n, ast.Call) and isinstance(n.func, ast.Attribute) and n.func.attr == "time"
+                and isinstance(n.func.value, ast.Name) and n.func.value.id == "time")
+
+    start_from_clock = any(isinstance(n, ast.Assign) and is_time_call(n.value) and any(
+        isinstance(t, ast.Name) and t.id == "start" for t in n.targets) for n in ast.walk(tree))
+    for n in ast.walk(tree):
+        if isinstance(n, ast.If) and any(isinstance(x, ast.Raise) for x in n.body):
+            t = n.test
+            if (isinstance(t, ast.Compare) and is_time_call(t.left) and len(t.ops) == 1
+                    and isinstance(t.ops[0], (ast.Gt, ast.GtE))
+                    and any(isinstance(x, ast.Name) and x.id == "start" for x in ast.walk(t.comparators[0]))
+                    and any(isinstance(x, ast.Attribute) and x.attr == "clear_to_send_timeout"
+                            for x in ast.walk(t.comparators[0]))):
+                return bool(start_from_clock)
+            return False
+    return None
+
+
 def keepalive_silent_while_rekey_pending():
     """AST of Packetizer._check_keepalive: an early `return` whose test includes `self.__need_rekey` precedes the call
     of the keepalive callback (the callback sends through _send_user_message on the transport thread).  None if
@@ -1004,6 +1034,32 @@ def keepalive_silent_while_rekey_pending():
     if call_at is None:
         return None
     return guard_at is not None and guard_at < call_at
+
+
+def recv_sends_every_computed_ack():
+    """AST of Channel.recv / recv_stderr: the window credit `ack = self._check_add_window(...)` (which has already
+    zeroed in_window_sofar) is sent under the plain test `if ack > 0:` — no further condition that could skip the
+    WINDOW_ADJUST and drop the credit.  None if unreadable."""
+    import paramiko.channel as C
+
+    ok = True
+    found = 0
+    for fn in (C.Channel.recv, C.Channel.recv_stderr):
+        try:
+            tree = ast.parse(textwrap.dedent(inspect.getsource(fn)))
+        except (OSError, SyntaxError):
+            return None
+        for n in ast.walk(tree):
+            if isinstance(n, ast.If) and any(isinstance(x, ast.Name) and x.id == "ack" for x in ast.walk(n.test)):
+                found += 1
+                t = n.test
+                plain = (isinstance(t, ast.Compare) and isinstance(t.left, ast.Name) and t.left.id == "ack"
+                         and len(t.ops) == 1 and isinstance(t.ops[0], ast.Gt)
+                         and isinstance(t.comparators[0], ast.Constant) and t.comparators[0].value == 0)
+                sends = any(isinstance(x, ast.Call) and isinstance(x.func, ast.Attribute)
+                            and x.func.attr == "_send_user_message" for x in ast.walk(n))
+                ok = ok and plain and sends
+    return ok and found >= 2
 
 
 def overflow_test_facts():
@@ -1064,13 +1120,19 @@ def lean_channel_table(sites, takes, handlers, gate):
         "def newkeysKeepsAuthHandler : Bool := %s\n\n"
         "/-- Packetizer._check_keepalive returns before the callback while a rekey request is pending -/\n"
         "def keepaliveSilentWhileRekeyPending : Bool := %s\n\n"
+        "/-- Channel.recv / recv_stderr send the window credit whenever one was computed (`if ack > 0:` only) -/\n"
+        "def recvSendsEveryComputedAck : Bool := %s\n\n"
+        "/-- Transport._send_user_message: the give-up test reads the clock (`time.time() > start + timeout`) -/\n"
+        "def sendTimeoutReadsClock : Bool := %s\n\n"
         "end PV.Generated.C11\n" % (rows, hrows, "true" if gate["rechecks_under_lock"] else "false",
                                       "true" if gate["clears_before_write"] else "false",
                                       ", ".join('("%s", "%s")' % p for p in (gate.get("overflow_tests") or [])),
                                       ", ".join('("%s", %d, %s)' % (f, l, "true" if u else "false")
                                                 for f, l, u in (gate.get("clear_sites") or [])),
                                       "true" if gate.get("newkeys_keeps_auth_handler") else "false",
-                                      "true" if gate.get("keepalive_guard") else "false")
+                                      "true" if gate.get("keepalive_guard") else "false",
+                                      "true" if gate.get("recv_sends_every_ack") else "false",
+                                      "true" if gate.get("send_timeout_reads_clock") else "false")
     )
 
 
@@ -1084,6 +1146,8 @@ def write_generated_c11(ctx):
     gate["clear_sites"] = clears_under_lock()
     gate["newkeys_keeps_auth_handler"] = newkeys_keeps_auth_handler()
     gate["keepalive_guard"] = keepalive_silent_while_rekey_pending()
+    gate["recv_sends_every_ack"] = recv_sends_every_computed_ack()
+    gate["send_timeout_reads_clock"] = send_timeout_reads_clock()
     ctx.extra["send_gate_facts"] = gate
     ctx.write_generated("C11", lean_channel_table(sites, takes, handlers, gate))
     return sites, takes, handlers
